@@ -109,6 +109,20 @@ func randomUnicode(r *rng, n int) string {
 	return s
 }
 
+// characters whose compatibility decomposition is many times longer than they are (U+FDFA: 3 -> 33 bytes)
+var expanding = []string{"\ufdfa", "\ufdfb", "\u3316", "\u3300", "\u334d", "\u3315", "\u33a2", "\u3389"}
+
+func expansionStrings(r *rng) []string {
+	var out []string
+	for _, ch := range expanding {
+		for _, n := range []int{7, 8, 18, 26, 40, 52} {
+			out = append(out, strings.Repeat(ch, n))
+		}
+	}
+	out = append(out, strings.Repeat("\ufdfa abandon ", 26), strings.Repeat("\u3316x", 30))
+	return out
+}
+
 var compatStrings = []string{"㍍", "ﬁ", "½", "Ω", "豈", "ｶﾞ", "Å", "ẛ̣", "ǆ", "㈱", "①", "ﷺ", "ｱｲｳ", "ⅷ", "℃", "é", "é", "が", "が", "각", "한글", "ǖ", "ǖ"}
 
 // marks that reorder: ccc 230 before 220, stacked
@@ -217,6 +231,14 @@ func runSeeds(tier string, seed int64) {
 		}
 		emitSeed(strOfLen(r, n, true), "pw", "mlen")
 		emitSeed("abandon ability", strOfLen(r, n, n%2 == 0), "plen")
+	}
+	// long runs of characters that expand many times under NFKD (any fixed expansion estimate is too small)
+	for i, x := range expansionStrings(r) {
+		if q && i%3 != int(seed%3) {
+			continue
+		}
+		emitSeed(x, "", "expanding")
+		emitSeed("abandon", x, "expanding")
 	}
 	// the same concatenation split at different points between mnemonic and passphrase (a cache or a buffer keyed
 	// by the joined text must not confuse them), and argument pairs swapped
@@ -343,6 +365,13 @@ func runSeedGroups(tier string, seed int64) {
 			seedGroup(spellings(p, false), false, "y", "randommnemonic")
 		}
 	}
+	// long runs of high-expansion compatibility characters in several spellings
+	for i, x := range expansionStrings(r) {
+		if tier == "quick" && i%4 != int(seed%4) {
+			continue
+		}
+		seedGroup(spellings(x, false), i%2 == 0, "w", "expanding")
+	}
 	// long texts (several hundred bytes, beyond any internal buffer size) in several spellings
 	nlong := map[string]int{"quick": 24, "thorough": 400}[tier]
 	for k := 0; k < nlong; k++ {
@@ -422,6 +451,31 @@ func runCheckGroups(tier string, seed int64) {
 			idx[r.intn(len(idx))] = r.intn(2048)
 			do(lang, idx, "substituted")
 			do(lang, idx[:len(idx)-1-r.intn(2)], "short")
+		}
+	}
+	// redundant separators (doubled, leading, trailing) in several spellings: not canonical, but still equivalent
+	for _, lang := range all10 {
+		cs := coverSentences(lang, r)
+		for k := 0; k < 4; k++ {
+			idx := cs[r.intn(len(cs))]
+			ws := strings.Split(sentence(idx, lang, " "), " ")
+			p := 1 + r.intn(len(ws)-1)
+			var vs []variant
+			for _, sp := range []string{" ", "\u3000", "\u00a0", "\u2003"} {
+				var s string
+				switch k {
+				case 0: // doubled separator, the second one in this spelling
+					s = strings.Join(ws[:p], " ") + " " + sp + strings.Join(ws[p:], " ")
+				case 1: // doubled, both in this spelling
+					s = strings.Join(ws[:p], " ") + sp + sp + strings.Join(ws[p:], " ")
+				case 2:
+					s = sp + strings.Join(ws, " ")
+				case 3:
+					s = strings.Join(ws, " ") + sp
+				}
+				vs = append(vs, variant{"redundant" + sp, s})
+			}
+			checkGroup(vs, lang, "redundant")
 		}
 	}
 	// arbitrary Unicode strings paired with their other normal forms
